@@ -1174,7 +1174,8 @@ def replay(ctx, path):
         print("impl  :", impl, "crash:", crash)
         print("model :", model)
         print("spec  :", spec)
-        bad = hl_spec_verdict(rp["line"], impl[0], spec[0]) if impl else ["crash"]
+        # (graphs with a preset link count are judged by the model comparison only: the classifier does not know the counts)
+        bad = (hl_spec_verdict(rp["line"], impl[0], spec[0]) if " c:" not in rp["line"] else []) if impl else ["crash"]
         print("clauses violated:", bad)
         return 1 if crash or bad or impl != model else 0
     if rp.get("unit") == "parse" and "line" in rp:
